@@ -1,5 +1,5 @@
 CONSTANTS
-  SeedIds = {1, 2, 3, 4, 5, 6}
+  SeedIds = {1, 2, 3, 4, 5, 6, 7}
   Focus = {"SetName","ReplaceInput","ResizeOutputs","ResizeInputs","GRemove","GInsertBefore","NewNode","IOAppend","IOPop","InitAdd","InitDel","SetType","SetShape","MetaPut","ValMetaPut","SetDoc","NodeMetaPut","AttrPut","AttrDel","GraphMetaPut","SetConst","SetTensor","AttachSub"}
   MaxDepth = 3
   EditVals = {1, 2, 3, 5, 6, 7, 8, 9}
